@@ -23,26 +23,28 @@ import (
 )
 
 type tqRealCase struct {
-	Sizes    []int      `json:"sizes"`    // one object per entry (batches are sorted by descending size)
-	Scripts  [][]string `json:"scripts"`  // per object, per storage request: ok | 503 | 500 | 404 | 429 | cut
-	Workers  int        `json:"workers"`  // lfs.concurrenttransfers
-	Batch    int        `json:"batch"`    // batch size
-	Retries  int        `json:"retries"`  // lfs.transfer.maxretries
-	Authenticated bool  `json:"authenticated,omitempty"` // the batch answer marks its objects `authenticated: true` (no credentials are to be added)
-	ExpiresIn     int   `json:"expires_in,omitempty"`     // every action is advertised with this expires_in (seconds); 0 = none
-	SlowMs        int   `json:"slow_ms,omitempty"`        // every storage answer takes this long
-	Contents [][]byte   `json:"-"`
+	Sizes         []int      `json:"sizes"`                   // one object per entry (batches are sorted by descending size)
+	Scripts       [][]string `json:"scripts"`                 // per object, per storage request: ok | 503 | 500 | 404 | 429 | cut
+	Workers       int        `json:"workers"`                 // lfs.concurrenttransfers
+	Batch         int        `json:"batch"`                   // batch size
+	Retries       int        `json:"retries"`                 // lfs.transfer.maxretries
+	Authenticated bool       `json:"authenticated,omitempty"` // the batch answer marks its objects `authenticated: true` (no credentials are to be added)
+	ExpiresIn     int        `json:"expires_in,omitempty"`    // every action is advertised with this expires_in (seconds); 0 = none
+	SlowMs        int        `json:"slow_ms,omitempty"`       // every storage answer takes this long
+	BatchScript   []string   `json:"batch_script,omitempty"`  // per batch request: ok | 401 (the last entry repeats); a credential helper that always answers is configured
+	Contents      [][]byte   `json:"-"`
 }
 
 type tqRealObs struct {
-	AddReturned  bool           `json:"add_returned"`
-	WaitReturned bool           `json:"wait_returned"`
-	Delivered    map[string]int `json:"delivered"`
-	Errors       []string       `json:"errors"`
+	AddReturned  bool            `json:"add_returned"`
+	WaitReturned bool            `json:"wait_returned"`
+	Delivered    map[string]int  `json:"delivered"`
+	Errors       []string        `json:"errors"`
 	Valid        map[string]bool `json:"valid"`
-	Gets         map[string]int `json:"gets"`
-	ExpiredUse   []string       `json:"expired_use,omitempty"` // storage requests that used an action after its advertised expiry
-	Panic        string         `json:"panic,omitempty"`
+	Gets         map[string]int  `json:"gets"`
+	ExpiredUse   []string        `json:"expired_use,omitempty"` // storage requests that used an action after its advertised expiry
+	Batches      int             `json:"batches,omitempty"`     // batch API requests received
+	Panic        string          `json:"panic,omitempty"`
 }
 
 func tqRealContent(i, size int) []byte {
@@ -89,6 +91,22 @@ func tqRealChildMain(workdir, js string) {
 				} `json:"objects"`
 			}
 			json.Unmarshal(body, &req)
+			mu.Lock()
+			nb := obs.Batches
+			obs.Batches++
+			mu.Unlock()
+			if len(tc.BatchScript) > 0 {
+				if nb >= len(tc.BatchScript) {
+					nb = len(tc.BatchScript) - 1
+				}
+				if tc.BatchScript[nb] == "401" {
+					rw.Header().Set("WWW-Authenticate", "Basic realm=\"lfs\"")
+					rw.Header().Set("Content-Type", "application/vnd.git-lfs+json")
+					rw.WriteHeader(401)
+					rw.Write([]byte(`{"message":"credentials needed"}`))
+					return
+				}
+			}
 			type act struct {
 				Href      string `json:"href"`
 				ExpiresIn int    `json:"expires_in,omitempty"`
@@ -163,6 +181,10 @@ func tqRealChildMain(workdir, js string) {
 	runIn(repo, nil, "git", "config", "lfs.concurrenttransfers", fmt.Sprint(tc.Workers))
 	runIn(repo, nil, "git", "config", "lfs.transfer.maxretries", fmt.Sprint(tc.Retries))
 	runIn(repo, nil, "git", "config", "lfs.transfer.maxretrydelay", "0")
+	if len(tc.BatchScript) > 0 {
+		// a helper that hands out the same credentials every time, whatever was rejected before
+		runIn(repo, nil, "git", "config", "credential.helper", "!f() { test \"$1\" = get && echo username=u && echo password=p; }; f")
+	}
 	os.Chdir(repo)
 	cfg := config.NewIn(repo, "")
 	client, err := lfsapi.NewClient(cfg)
@@ -262,6 +284,11 @@ func c06Real(c *Ctx, r *Rng, prop string) {
 			tc.Scripts[big] = []string{Pick(r, []string{"503", "500", "429", "404"}), "ok"}
 			tc.Workers = Pick(r, []int{2, 3, 8})
 		}
+		if r.Chance(22) {
+			// directed: the batch API itself asks for credentials — once, twice, or every time, with a credential
+			// helper that keeps handing out what was just rejected
+			tc.BatchScript = Pick(r, [][]string{{"401"}, {"401", "ok"}, {"401", "401", "ok"}, {"ok", "401"}, {"401", "401", "401", "401", "401", "ok"}})
+		}
 		if prop == "C15" && i%16 == 5 {
 			// directed: actions valid when the answer arrives run out while the objects wait for the only worker
 			tc = tqRealCase{Workers: 1, Batch: 100, Retries: 3, ExpiresIn: 6, SlowMs: 2300}
@@ -323,6 +350,13 @@ func c06Real(c *Ctx, r *Rng, prop string) {
 			continue
 		}
 		c.R.Count("real-adapter.wait-returned")
+		if len(tc.BatchScript) > 0 {
+			c.R.Count("real-adapter.batch-401")
+			// every batch request of the queue (at most one per object and attempt) is sent at most 1 + 3 times
+			if bound := len(tc.Sizes) * (1 + tc.Retries) * 4; o.Batches > bound {
+				fail("the batch API was asked more often than the attempts of the objects and the bounded re-authentication allow (real basic adapter)", fmt.Sprintf("%d batch requests, bound %d", o.Batches, bound))
+			}
+		}
 		errs := strings.Join(o.Errors, " | ")
 		for k, sz := range tc.Sizes {
 			oid := sha(tqRealContent(k, sz))
